@@ -126,14 +126,7 @@ Corollary tie_unite_v2_isValid_jsize w opts :
   snd (JU.gen_isValid w opts) = None -> (1 <= N.to_nat (JU.Opts_JoinSize opts))%nat.
 Proof. intros H. apply (proj1 (proj2 (tie_unite_v2_isValid w opts))) in H. lia. Qed.
 
-Theorem tie_unite_v2_prepareItem w dsc item : JU.gen_prepareItem w dsc item = (w, dsc, item).
-Proof. unfold JU.gen_prepareItem. cbn. destruct (JU.Opts_NoCopy (JU.Discipline_opts dsc)); reflexivity. Qed.
 
-Theorem tie_unite_v2_resetJoin w dsc :
-  JU.gen_resetJoin w dsc =
-  (w, JU.mk_Discipline (JU.Discipline_opts dsc) (JU.Discipline_interruptInterval dsc) [] (JU.Discipline_output dsc)
-        (JU.Discipline_passAt dsc) (JU.Discipline_release dsc), tt).
-Proof. reflexivity. Qed.
 
 (* ---------------------------------------------------------------- examples: no theorem is vacuous --------------- *)
 
@@ -167,14 +160,6 @@ Proof.
   - now apply (tie_unite_v2_isValid 7 (JU.mk_Opts None 0 false 0 0)).
   - apply (tie_unite_v2_isValid 7 (JU.mk_Opts (Some tt) 0 false 0 0)). cbn. split; [discriminate|reflexivity].
 Qed.
-Example ex_unite_v2_prepareItem :
-  JU.gen_prepareItem 7 (JU.mk_Discipline (JU.mk_Opts (Some tt) 4 false 0 25) 0 [1;2;3]%N (Some tt) tt (Some tt)) [1;2;3]%N =
-  (7%nat, JU.mk_Discipline (JU.mk_Opts (Some tt) 4 false 0 25) 0 [1;2;3]%N (Some tt) tt (Some tt), [1;2;3]%N).
-Proof. apply tie_unite_v2_prepareItem. Qed.
-Example ex_unite_v2_resetJoin :
-  JU.gen_resetJoin 7 (JU.mk_Discipline (JU.mk_Opts (Some tt) 4 true 0 25) 0 [1;2;3]%N (Some tt) tt (Some tt)) =
-  (7%nat, JU.mk_Discipline (JU.mk_Opts (Some tt) 4 true 0 25) 0 [] (Some tt) tt (Some tt), tt).
-Proof. now rewrite tie_unite_v2_resetJoin. Qed.
 
 (* ---------------------------------------------------------------- assumptions ------------------------------------ *)
 Print Assumptions tie_unite_v2_calcInterruptInterval.
@@ -183,5 +168,3 @@ Print Assumptions tie_unite_v2_normalize.
 Print Assumptions tie_unite_v2_calcInterruptInterval_normalized.
 Print Assumptions tie_unite_v2_isValid.
 Print Assumptions tie_unite_v2_isValid_jsize.
-Print Assumptions tie_unite_v2_prepareItem.
-Print Assumptions tie_unite_v2_resetJoin.
